@@ -114,6 +114,38 @@ def gen_case(r, ctx, op, part=None, n=None):
         ctx.hist("linreg_lambda", f"{lam_num}/2^{lam_shift}")
         part = part or gen_partition(r, n)
         return f"linreg {lam_num} {lam_shift} {k} " + table(n, d, part, rows)
+    if op in ("whiten", "zca"):
+        n, d, rows = gen_matrix(r, ctx, n=n, allow_wide=r.chance(1, 10))
+        if n < d + 1 and r.chance(9, 10):                    # precondition: at least d+1 points
+            n, d, rows = gen_matrix(r, ctx, n=d + 1 + r.range(0, 6), d=d)
+        t_num, t_shift = r.choice([(1, 0), (1, 0), (4, 0), (1, 2), (9, 0), (3, 1)])
+        part = part or gen_partition(r, n)
+        return f"{op} {t_num} {t_shift} " + table(n, d, part, rows)
+    if op == "pca":
+        n, d, rows = gen_matrix(r, ctx, n=n)
+        if n == 1 and r.chance(5, 6): n, d, rows = gen_matrix(r, ctx, n=r.range(2, 9))
+        alg = r.choice([0, 0, 1, 2])
+        small = alg == 2 or (alg == 0 and d > n)
+        avail = n if small else d
+        m = r.choice([0, 0, 1, avail, r.range(1, max(1, avail))])
+        m = min(m, avail)
+        wh = 1 if r.chance(1, 4) else 0
+        ctx.hist("pca_branch", "small-sample" if small else "standard")
+        part = part or gen_partition(r, n)
+        return f"pca {wh} {alg} {m} " + table(n, d, part, rows)
+    if op in ("lda", "wlda"):
+        classes = r.choice([2, 2, 3, 4])
+        n, d, rows = gen_matrix(r, ctx, n=n or r.choice([classes, classes + 1, classes + 2, 6, 8, 9, 12, 16]), allow_wide=r.chance(1, 8))
+        labels = [i % classes for i in range(n)] if r.chance(4, 5) else [r.below(classes) for _ in range(n)]
+        # class-dependent shift so that the class means differ
+        for i, row in enumerate(rows):
+            for j in range(d): row[j] += labels[i] * ((j % 2) * 2 - 1) * (j + 1) if r.chance(3, 4) else 0
+            row.append(labels[i])
+            if op == "wlda": row.append(r.choice([1, 1, 2, 3, 5, 8]))
+        reg_num, reg_shift = r.choice([(0, 0), (0, 0), (1, 0), (1, 3), (1, 10), (5, 1)])
+        ctx.hist("lda_reg", f"{reg_num}/2^{reg_shift}")
+        part = part or gen_partition(r, n)
+        return f"{op} {reg_num} {reg_shift} " + table(n, d, part, rows)
     raise ValueError(op)
 
 
@@ -259,6 +291,12 @@ def classify(r):
     if "zca-nonfinite" in r.oracle:
         return ("F-C15-2:zca-singular-covariance",
                 f"NormalizeComponentsZCA returns a non-finite model for data with singular covariance: `{r.op}`", True)
+    if op == "pca" and ("pca-nonfinite-direction" in r.oracle or "pca-not-orthonormal" in r.oracle) and r.op.split()[2] != "1":
+        return ("F-C15-3:pca-small-sample-null-direction",
+                f"PCA (small-sample branch) normalises a direction without variance (0/0): `{r.op}` -> {r.oracle}", True)
+    if op == "lda" and "lda-n-equals-classes" in r.model:
+        return ("F-C15-4:lda-n-equals-classes",
+                f"LDA divides the scatter matrix by n - classes = 0: `{r.op}` -> {r.impl[:80]}", True)
     if r.oracle:
         return f"oracle:{op}:{'+'.join(sorted(set(r.oracle)))}", f"property oracle failed ({r.oracle}) on `{r.op}`; model says: {r.model}", True
     what = re.sub(r"\[[0-9,]+\]", "[]", r.model.split(":")[0])[:60]
@@ -319,7 +357,7 @@ def build(ctx):
     # two executables built one after the other: at most 3 compiler jobs at a time
     a = ctx.harness("c15", ["c15.cpp"], repo_sources=["src/Algorithms/LinearRegression.cpp",
                                                       "src/Algorithms/NormalizeComponentsWhitening.cpp"])
-    b = ctx.harness("c15b", ["c15b.cpp"], repo_sources=["src/Algorithms/PCA.cpp", "src/Algorithms/LDA.cpp"])
+    b = ctx.harness("c15b", ["c15b.cpp"], repo_sources=["src/Algorithms/PCA.cpp", "src/Algorithms/LDA.cpp", "src/Core/Random.cpp"])
     return {"a": a, "b": b}
 
 
@@ -352,7 +390,7 @@ def run(ctx):
     ctx.cov["corpus_cases"] = len(corpus)
     per = 120 if ctx.quick else 1500
     lines = list(corpus)
-    for op in ("meanvar", "unitvar", "unitint", "linreg"):
+    for op in ("meanvar", "unitvar", "unitint", "linreg", "whiten", "zca", "pca", "lda", "wlda"):
         lines += [gen_case(r, ctx, op) for _ in range(per)]
         for _ in range(3 if ctx.quick else 30):
             allp = gen_all_partitions(r, ctx, op)
